@@ -151,6 +151,12 @@ def build(scn, outdir):
           f.write(p)
         if fail_after is not None and fail_after >= len(parts):
           raise SerializerBoom('body failed at the end')
+        if scn.get('same_stat') and os.path.exists(dest):
+          # the staged file ends up with the size AND the modification time of the file it replaces (two writes within one
+          # timestamp tick of a coarse file system, or times set by a sync tool): it is still new content
+          f.flush()
+          st = os.stat(dest)
+          os.utime(f.name, ns=(st.st_atime_ns, st.st_mtime_ns))
 
     exp = None if fail_after is not None else ''.join(parts).encode()
     return run_aw, exp, dest
@@ -369,6 +375,8 @@ def scenarios(tier):
       out.append({'kind': 'atomic_write', 'chunks': parts, 'filesync': fs})
       for k in range(len(parts) + 1):
         out.append({'kind': 'atomic_write', 'chunks': parts, 'filesync': fs, 'fail_after': k})
+  for fs in (False, True):
+    out.append({'kind': 'atomic_write', 'chunks': ['N' * 1240], 'filesync': fs, 'same_stat': True})     # (1240 = size of the previous content)
   if tier == 'thorough':
     out.append({'kind': 'json', 'pattern': 'brace', 'record': 'large'})
     out.append({'kind': 'pickle', 'pattern': 'brace', 'record': 'large'})
@@ -548,6 +556,83 @@ def run_shared_callback(mode, hold_at):
   return bad
 
 
+def run_retry_cases():
+  """The same callback object is handed the same record again after an attempt that failed part-way (a write of the staging
+  file failed, or the serializer raised after some chunks): the second, undisturbed attempt publishes the whole record."""
+  import shutil  # pylint: disable=g-import-not-at-top
+  cb, jf, aw = mods()
+  bad, n = [], 0
+  rec = make_record('small')
+  chunks = ['[first,', 'x' * 9000, ',last]']
+  prev = b'{"previous": "complete record"}'
+  for kind in ('json', 'custom_text', 'custom_bytes'):
+    for how, k in [('write', 1), ('write', 2), ('write', 3), ('serializer', 1), ('serializer', 2)]:
+      if kind == 'json' and how == 'serializer':
+        continue
+      root = tempfile.mkdtemp(prefix='c17rt_', dir=os.environ.get('VERIF_SCRATCH') or None)
+      real_ntf = tempfile.NamedTemporaryFile
+      try:
+        attempts = {'n': 0}
+        if kind == 'json':
+          o = jf.OutputToJSON(pattern_in(root, 'brace'), sort_keys=True)
+          exp = ''.join(o.serialize_test_record(rec)).encode()
+        else:
+          class Flaky(cb.OutputToFile):
+
+            @staticmethod
+            def serialize_test_record(test_rec):
+              attempts['n'] += 1
+              first = attempts['n'] == 1
+
+              def gen():
+                for i, c in enumerate(chunks):
+                  if first and how == 'serializer' and i == k:
+                    raise SerializerBoom('serializer failed after %d chunks (first attempt only)' % i)
+                  yield c.encode() if kind == 'custom_bytes' else c
+              return gen()
+
+          o = Flaky(pattern_in(root, 'brace'))
+          exp = ''.join(chunks).encode()
+        dest = os.path.join(root, expected_name('brace', rec))
+        with open(dest, 'wb') as f:
+          f.write(prev)
+        counter = {'write': 0, 'flush': 0, 'close': 0}
+        if how == 'write':
+          tempfile.NamedTemporaryFile = lambda *a, **kw: FileProxy(real_ntf(*a, **kw), {'op': 'write', 'k': k}, counter)
+        first_exc = None
+        try:
+          o(rec)
+        except Exception as e:  # pylint: disable=broad-except
+          first_exc = e
+        finally:
+          tempfile.NamedTemporaryFile = real_ntf
+        n += 1
+        tag = 'retry:%s:%s%d' % (kind, how, k)
+        after_first = open(dest, 'rb').read() if os.path.exists(dest) else None
+        if first_exc is None:
+          if after_first != exp:       # (fewer writes than k: the attempt simply succeeded)
+            bad.append((tag + ':first', 'first attempt returned normally but the destination is not the serialization'))
+          continue
+        if after_first != prev:
+          bad.append((tag + ':first', 'failed first attempt left %s at the destination (previous record: %d bytes)'
+                      % ('nothing' if after_first is None else '%d bytes' % len(after_first), len(prev))))
+        second_exc = None
+        try:
+          o(rec)
+        except Exception as e:  # pylint: disable=broad-except
+          second_exc = e
+        final = open(dest, 'rb').read() if os.path.exists(dest) else None
+        if second_exc is not None:
+          bad.append((tag + ':second-raised', 'undisturbed second attempt raised %r' % (second_exc,)))
+        elif final != exp:
+          bad.append((tag + ':second', 'second attempt succeeded but the destination holds %s, the serialization has %d bytes'
+                      % ('nothing' if final is None else '%d bytes%s' % (len(final), ' (a suffix of it)' if exp.endswith(final) else ''), len(exp))))
+      finally:
+        tempfile.NamedTemporaryFile = real_ntf
+        shutil.rmtree(root, ignore_errors=True)
+  return n, bad
+
+
 def run_consecutive_records():
   """One long-lived callback object, consecutive records that agree in dut / station / times and differ only in another
   field the file-name pattern uses: each goes to the file named by ITS fields."""
@@ -595,6 +680,11 @@ def run_consecutive_records():
 
 
 def run_shared(rep):
+  n, bad = run_retry_cases()
+  for sig, what in bad:
+    rep.merge_violations([(sig, what, {'retry': True})])
+  rep.add_part('same callback object and record again after a failed attempt', evaluations=n, distinct_nontrivial=n, exhaustive=True,
+               samples=[{'first_attempt_fails_at': ['write 1-3 of the staging file', 'serializer after 1-2 chunks']}])
   n, bad = run_consecutive_records()
   for sig, what in bad:
     rep.merge_violations([(sig, what, {'consecutive': True})])
@@ -653,6 +743,11 @@ def run(tier):
 
 
 def replay(art):
+  if art.get('replay', {}).get('retry'):
+    n, bad = run_retry_cases()
+    for b in bad:
+      print('VIOLATED', b)
+    return 1 if bad else 0
   if art.get('replay', {}).get('consecutive'):
     n, bad = run_consecutive_records()
     for b in bad:
